@@ -34,11 +34,11 @@ DROPPED_CITES = [None, [1]]
 def bounds(tier):
     return dict(k=[1, 2], vector_refs=V_REFS, module_refs=M_REFS, kept_feature_cites=KEPT_CITES, second_kept_feature=KEPT2_CITES,
                 dropped_feature_cites=DROPPED_CITES, repeated_calls=2 if tier == "quick" else 3,
-                rotations=[0] if tier == "quick" else [0, "wrapping"])
+                rotations=[0] if tier == "quick" else [0, "wrapping"], record_ids=["distinct", "one shared identifier", "none (library default)"])
 
 
 def goals(tier):
-    return ["two-digit-citation-index", "shared-reference-merged", "several-citations-on-one-feature", "renumbered", "dropped-feature-cites", "no-citations", "repeated-call"]
+    return ["records-sharing-an-identifier", "two-digit-citation-index", "shared-reference-merged", "several-citations-on-one-feature", "renumbered", "dropped-feature-cites", "no-citations", "repeated-call"]
 
 
 def configs(refs_menu):
@@ -64,7 +64,7 @@ def configs(refs_menu):
     return out
 
 
-def build(k, vc, mc, rotated=False, strip=False):
+def build(k, vc, mc, rotated=False, strip=False, ids="distinct"):
     g = gen.geometry_of(gen.enzyme(ENZ))
     M, V = gen.generic_classes(ENZ)
     base = asm.base_scenario(ENZ, k)
@@ -90,7 +90,11 @@ def build(k, vc, mc, rotated=False, strip=False):
         ann = {"topology": "circular"}
         if rf:
             ann["references"] = rf
-        r = CircularRecord(Seq(s), id=name, name=name, features=feats, annotations=ann)
+        if ids == "default":
+            r = CircularRecord(Seq(s), features=feats, annotations=ann)           # Biopython's default identifier
+        else:
+            rid = name if ids == "distinct" else "plasmid"                        # several records filed under one identifier
+            r = CircularRecord(Seq(s), id=rid, name=rid, features=feats, annotations=ann)
         return (r >> rot) if rotated else r
     records = {"v": rec("v", vec, vfeats, refs(vc), 2), "m1": rec("m1", mods[0], mfeats, refs(mc), len(mods[0]) - t0 - 2)}
     if k == 2:
@@ -107,8 +111,8 @@ def ref_id(r):
 def check(st, scn):
     k, vc, mc, calls, rotated = scn["k"], scn["vc"], scn["mc"], scn["calls"], scn.get("rotated", False)
     gen.prime(list(gen.generic_classes(ENZ)))
-    records, ents = build(k, vc, mc, rotated)
-    plain_records, plain_ents = build(k, vc, mc, rotated, strip=True)
+    records, ents = build(k, vc, mc, rotated, ids=scn.get("ids", "distinct"))
+    plain_records, plain_ents = build(k, vc, mc, rotated, strip=True, ids=scn.get("ids", "distinct"))
     before = {n: snapshot.record_snapshot(r) for n, r in records.items()}
     order = ["m1"] + (["m2"] if k == 2 else [])
     po = asm.run_assemble(plain_ents["v"], [plain_ents[n] for n in order])
@@ -231,6 +235,14 @@ def run_unit(unit, st, tier):
             if any(c and max(c) >= 10 for c in (vc["kept"], vc["kept2"], mc["kept"], mc["kept2"])):
                 st.goal("two-digit-citation-index")
             st.goal("repeated-call")
+            # records sharing an identifier (or having none): same expectations
+            if k == 2 and vc["kept"] and mc["kept"] and len(vc["refs"]) <= 3 and len(mc["refs"]) <= 3 and not rotated:
+                for ids in ("same", "default"):
+                    s2 = dict(scn, ids=ids)
+                    check(st, s2)
+                    st.scenario("cited", None, calls=b["repeated_calls"] + 1)
+                    st.nontrivial += 1
+                    st.goal("records-sharing-an-identifier")
     st.sample(dict(k=k, vc=vc, mc=configs(M_REFS)[-1], calls=2))
 
 
